@@ -259,6 +259,7 @@ static int conn_index (struct MHD_Connection *mc)
   return -1;
 }
 
+static void t_expect (int c);
 static void notify_conn (void *cls, struct MHD_Connection *mc, void **socket_context,
                          enum MHD_ConnectionNotificationCode toe)
 {
@@ -271,7 +272,7 @@ static void notify_conn (void *cls, struct MHD_Connection *mc, void **socket_con
       c = (int) ntohs (((const struct sockaddr_in *) ci->client_addr)->sin_port) - 1000;
     if (c < 0 || c >= MAXC) c = -1;
     *socket_context = (void *) (intptr_t) (c + 1);
-    if (c >= 0) { conns[c].mc = mc; conns[c].started = 1; }
+    if (c >= 0) { conns[c].mc = mc; conns[c].started = 1; t_expect (c); }
     out ("conn-start c=%d", c);
   }
   else
@@ -463,8 +464,9 @@ void __wrap_MHD_connection_handle_read (struct MHD_Connection *c, bool socket_er
 { __real_MHD_connection_handle_read (c, socket_error); hline ("read", c, (int) socket_error, 0); }
 void __wrap_MHD_connection_handle_write (struct MHD_Connection *c)
 { __real_MHD_connection_handle_write (c); hline ("write", c, 0, 0); }
+static void t_idle_hook (struct MHD_Connection *c);
 enum MHD_Result __wrap_MHD_connection_handle_idle (struct MHD_Connection *c)
-{ enum MHD_Result r = __real_MHD_connection_handle_idle (c); hline ("idle", c, 0, (int) r); return r; }
+{ enum MHD_Result r = __real_MHD_connection_handle_idle (c); hline ("idle", c, 0, (int) r); t_idle_hook (c); return r; }
 void __wrap_MHD_connection_close_ (struct MHD_Connection *c, enum MHD_RequestTerminationCode rtc)
 { __real_MHD_connection_close_ (c, rtc); hline ("close", c, (int) rtc, 0); }
 
@@ -560,10 +562,166 @@ static void put_pollset (const char *tag, const struct pollfd *f, nfds_t n, int 
   putchar (']');
 }
 
+/* ---------------------------------------------------------------- gated poll() for thread-per-connection (mode tpc-poll)
+ * Every thread of the daemon (the daemon's own thread and one per connection) parks in this shim; the script releases
+ * one thread at a time and waits until it is parked again (or has left its thread function), so the interleaving is
+ * the script's.  One extra scheduling point: right after the MHD_connection_handle_idle call in which the handler
+ * suspended the connection (`race <c>`): there the script resumes the connection and lets the daemon thread process
+ * the resume before the connection's thread is back at its loop head. */
+#define TD MAXC
+struct tslot { int live, parked, go, exited, mid, expect; struct pollfd *fds; nfds_t n; int timeout; };
+static struct tslot ts[MAXC + 1];
+static int tgate_on;
+static __thread int my_slot = -1;
+static int race_arm[MAXC];
+static pthread_key_t t_key; static int t_key_ok;
+
+static void t_thread_gone (void *v)
+{
+  int s = (int) (intptr_t) v - 1;
+  if (s < 0 || s > MAXC) return;
+  pthread_mutex_lock (&gate_mx);
+  ts[s].exited = 1; ts[s].live = 0; ts[s].parked = 0;
+  pthread_cond_broadcast (&gate_cv);
+  pthread_mutex_unlock (&gate_mx);
+}
+
+static int t_itc_fd (void) { return (d && MHD_ITC_IS_VALID_ (d->itc)) ? (int) MHD_itc_r_fd_ (d->itc) : -1; }
+static int t_on_itc (int s) { return ts[s].n >= 1 && ts[s].fds[0].fd == t_itc_fd (); }
+
+static int tgate_poll (struct pollfd *fds, nfds_t nfds, int timeout)
+{
+  int s = my_slot, r, c;
+  if (s < 0)
+  {
+    s = TD;
+    for (c = 0; c < MAXC; c++)
+      if (conns[c].used && conns[c].mc && nfds >= 1 && fds[0].fd == conns[c].mc->socket_fd) { s = c; break; }
+    my_slot = s;
+    if (t_key_ok && s != TD) pthread_setspecific (t_key, (void *) (intptr_t) (s + 1));
+  }
+  pthread_mutex_lock (&gate_mx);
+  ts[s].fds = fds; ts[s].n = nfds; ts[s].timeout = timeout; ts[s].live = 1; ts[s].parked = 1;
+  pthread_cond_broadcast (&gate_cv);
+  while (!ts[s].go && !gate_free) pthread_cond_wait (&gate_cv, &gate_mx);
+  ts[s].go = 0; ts[s].parked = 0;
+  pthread_mutex_unlock (&gate_mx);
+  if (gate_free) return real_poll (fds, nfds, timeout);
+  r = real_poll (fds, nfds, 0);
+  pthread_mutex_lock (&out_mx);
+  if (TD == s) printf ("passed who=D itc=%d\n", (nfds >= 1 && 0 != (fds[nfds - 1].revents & POLLIN)) ? 1 : 0);
+  else if (nfds >= 1 && fds[0].fd == t_itc_fd ()) printf ("passed who=%d on=itc itc=%d\n", s, 0 != (fds[0].revents & POLLIN));
+  else printf ("passed who=%d on=sock r=%d w=%d e=%d\n", s, 0 != (fds[0].revents & POLLIN), 0 != (fds[0].revents & POLLOUT),
+               0 != (fds[0].revents & MHD_POLL_REVENTS_ERR_DISC));
+  pthread_mutex_unlock (&out_mx);
+  return r;
+}
+
+/* the connection's own thread stops here, inside the wrapper of the idle call that suspended the connection */
+static void t_pause_mid (int s)
+{
+  pthread_mutex_lock (&gate_mx);
+  ts[s].mid = 1;
+  pthread_cond_broadcast (&gate_cv);
+  while (!ts[s].go && !gate_free) pthread_cond_wait (&gate_cv, &gate_mx);
+  ts[s].go = 0; ts[s].mid = 0;
+  pthread_mutex_unlock (&gate_mx);
+}
+
+static void t_release (int s)
+{
+  pthread_mutex_lock (&gate_mx);
+  ts[s].go = 1; ts[s].parked = 0; ts[s].mid = 0;
+  pthread_cond_broadcast (&gate_cv);
+  pthread_mutex_unlock (&gate_mx);
+}
+
+static int t_wait (int s)
+{
+  struct timespec tsp; int ok = 1;
+  clock_gettime (CLOCK_REALTIME, &tsp); tsp.tv_sec += 10;
+  pthread_mutex_lock (&gate_mx);
+  while (!ts[s].parked && !ts[s].exited && !ts[s].mid)
+    if (0 != pthread_cond_timedwait (&gate_cv, &gate_mx, &tsp)) { ok = 0; break; }
+  pthread_mutex_unlock (&gate_mx);
+  if (!ok) printf ("park-timeout who=%d\n", s);
+  return ok;
+}
+
+/* would the blocking call this thread is parked in return now?  A finite timeout is a reason, except for the bounded
+ * wait of a suspended connection's thread: that one only re-checks and blocks again. */
+static int t_wanted (int s, int advance)
+{
+  struct pollfd cp[4]; nfds_t n;
+  if (!ts[s].live || !ts[s].parked) return 0;
+  n = ts[s].n < 4 ? ts[s].n : 4;
+  if (0 == ts[s].timeout) return 1;
+  memcpy (cp, ts[s].fds, n * sizeof(cp[0]));
+  if (real_poll (cp, n, 0) > 0) return 1;
+  if (ts[s].timeout > 0 && !(TD != s && t_on_itc (s)))
+  { if (advance) { vclock_ms += (uint64_t) ts[s].timeout; printf ("slept %d\n", ts[s].timeout); } return 1; }
+  return 0;
+}
+
+static void t_put_block (int s)
+{
+  if (ts[s].exited) { printf ("texit who=%d\n", s); return; }
+  if (TD == s) { printf ("tpark who=D tmo=%d\n", ts[s].timeout); return; }
+  if (t_on_itc (s)) { printf ("tpark who=%d on=itc ev=r tmo=%d\n", s, ts[s].timeout); return; }
+  printf ("tpark who=%d on=sock ev=%s%s%s tmo=%d\n", s, (ts[s].fds[0].events & POLLIN) ? "r" : "", (ts[s].fds[0].events & POLLOUT) ? "w" : "",
+          (0 == (ts[s].fds[0].events & (POLLIN | POLLOUT))) ? "e" : "", ts[s].timeout);
+}
+
+static void t_expect (int c) { if (tgate_on && c >= 0 && c < MAXC) { memset (&ts[c], 0, sizeof(ts[c])); ts[c].expect = 1; } }
+
+static void t_idle_hook (struct MHD_Connection *c)
+{
+  int s = my_slot;
+  if (!tgate_on || gate_free || s < 0 || s >= MAXC || !race_arm[s] || !c->suspended) return;
+  race_arm[s] = 0;
+  t_pause_mid (s);
+}
+
+static void t_step (int s)
+{
+  int c;
+  if (TD == s) printf ("tstep who=D\n"); else printf ("tstep who=%d\n", s);
+  fflush (stdout);
+  t_release (s); t_wait (s);
+  if (TD != s && ts[s].mid)
+  { /* the handler has just suspended the connection: another thread resumes it and the daemon thread processes the
+       resume before this thread looks at `suspended` again */
+    printf ("tmid who=%d\n", s);
+    if (conns[s].mc && conns[s].mc->suspended && !conns[s].mc->resuming)
+    { conns[s].resume_in = -1; printf ("resume c=%d\n", s); MHD_resume_connection (conns[s].mc); t_step (TD); }
+    printf ("tcont who=%d\n", s); fflush (stdout);
+    t_release (s); t_wait (s);
+  }
+  t_put_block (s);
+  for (c = 0; c < MAXC; c++)     /* threads created in this step run up to their first blocking call */
+    if (ts[c].expect) { ts[c].expect = 0; t_wait (c); printf ("tnew who=%d\n", c); t_put_block (c); }
+  printf ("tstate "); put_snap (); putchar ('\n');
+}
+
+/* one sweep: the daemon thread, every connection's thread, the daemon thread again — each only if its blocking call
+ * would return now */
+static int t_sweep (void)
+{
+  int c, any = 0;
+  if (t_wanted (TD, 1)) { t_step (TD); any = 1; }
+  for (c = 0; c < MAXC; c++) if (t_wanted (c, 1)) { t_step (c); any = 1; }
+  if (t_wanted (TD, 1)) { t_step (TD); any = 1; }
+  return any;
+}
+
+static int t_any_wanted (void)
+{ int s; for (s = 0; s <= MAXC; s++) if (t_wanted (s, 0)) return 1; return 0; }
+
 int poll (struct pollfd *fds, nfds_t nfds, int timeout)
 {
   int r;
   if (NULL == real_poll) real_poll = (int (*)(struct pollfd *, nfds_t, int)) dlsym (RTLD_NEXT, "poll");
+  if (tgate_on && !gate_free && !pthread_equal (pthread_self (), main_thr)) return tgate_poll (fds, nfds, timeout);
   if (!gate_on || gate_free || pthread_equal (pthread_self (), main_thr)) return real_poll (fds, nfds, timeout);
   pthread_mutex_lock (&gate_mx);
   gate_fds = fds; gate_n = nfds; gate_timeout = timeout; gate_parked = 1;
@@ -658,6 +816,15 @@ static void report (void)
   drain_clients ();
   if (NULL == d) return;
   printf ("state "); put_snap (); putchar ('\n');
+  if (tgate_on)
+  { /* every thread is parked: "quiescent" = no blocking call would return */
+    const union MHD_DaemonInfo *di3;
+    out ("fdset r=[] w=[] e=[]"); out ("kready r=[] w=[] e=[] itc=0");
+    out (t_any_wanted () ? "hint 0" : "hint none");
+    di3 = MHD_get_daemon_info (d, MHD_DAEMON_INFO_CURRENT_CONNECTIONS);
+    out ("conns %u", di3 ? di3->num_connections : 0u);
+    return;
+  }
   if (gate_on)
   {
     const union MHD_DaemonInfo *di2;
@@ -683,6 +850,15 @@ static void one_round (const struct lp_line *rl)
       if (0 == conns[c].resume_in) { conns[c].resume_in = -1; out ("resume c=%d", c); MHD_resume_connection (conns[c].mc); }
       else conns[c].resume_in--;
     }
+  if (tgate_on)
+  {
+    printf ("round-begin "); put_snap (); putchar ('\n');
+    in_round = 1;
+    t_sweep ();
+    in_round = 0;
+    printf ("round-end "); put_snap (); putchar ('\n');
+    return;
+  }
   if (gate_on)
   { /* one cycle of the polling thread, from the poll() it is parked in to the next one */
     printf ("round-begin "); put_snap (); putchar ('\n');
@@ -759,6 +935,7 @@ static void start_daemon (void)
   else if (!strcmp (cfg.mode, "select-thr")) flags |= MHD_USE_INTERNAL_POLLING_THREAD | MHD_USE_ITC;
   else if (!strcmp (cfg.mode, "epoll-thr")) flags |= MHD_USE_EPOLL | MHD_USE_INTERNAL_POLLING_THREAD | MHD_USE_ITC;
   else if (!strcmp (cfg.mode, "tpc")) flags |= MHD_USE_THREAD_PER_CONNECTION | MHD_USE_INTERNAL_POLLING_THREAD | MHD_USE_ITC;
+  else if (!strcmp (cfg.mode, "tpc-poll")) flags |= MHD_USE_POLL | MHD_USE_THREAD_PER_CONNECTION | MHD_USE_INTERNAL_POLLING_THREAD | MHD_USE_ITC;
   if (cfg.mem) { ops[n].option = MHD_OPTION_CONNECTION_MEMORY_LIMIT; ops[n].value = (intptr_t) cfg.mem; ops[n++].ptr_value = NULL; }
   if (cfg.incr) { ops[n].option = MHD_OPTION_CONNECTION_MEMORY_INCREMENT; ops[n].value = (intptr_t) cfg.incr; ops[n++].ptr_value = NULL; }
   if (cfg.have_lvl) { ops[n].option = MHD_OPTION_CLIENT_DISCIPLINE_LVL; ops[n].value = cfg.lvl; ops[n++].ptr_value = NULL; }
@@ -775,8 +952,12 @@ static void start_daemon (void)
   main_thr = pthread_self ();
   gate_free = 0; gate_go = 0; gate_parked = 0;
   gate_on = !strcmp (cfg.mode, "poll-thr");
+  tgate_on = !strcmp (cfg.mode, "tpc-poll");
+  memset (ts, 0, sizeof(ts)); memset (race_arm, 0, sizeof(race_arm));
+  if (tgate_on && !t_key_ok) t_key_ok = (0 == pthread_key_create (&t_key, &t_thread_gone));
   d = MHD_start_daemon (flags, 0, NULL, NULL, &handler, NULL, MHD_OPTION_ARRAY, ops, MHD_OPTION_END);
   if (d && gate_on) gate_wait_parked ();
+  if (d && tgate_on) t_wait (TD);
   out (d ? "started" : "start-failed");
 }
 
@@ -785,7 +966,7 @@ static void elog (void *cls, const char *fmt, va_list ap) { (void) cls; (void) f
 static void reset_all (void)
 {
   int c, i, j;
-  if (d) { gate_open (); MHD_stop_daemon (d); d = NULL; gate_on = 0; }
+  if (d) { gate_open (); MHD_stop_daemon (d); d = NULL; gate_on = 0; tgate_on = 0; }
   for (c = 0; c < MAXC; c++) { if (conns[c].used && conns[c].cfd >= 0) close (conns[c].cfd); }
   memset (conns, 0, sizeof(conns));
   for (i = 0; i < MAXRESP; i++) { for (j = 0; j < resps[i].nh; j++) { free (resps[i].h[j].n); free (resps[i].h[j].v); } }
@@ -917,6 +1098,14 @@ int main (void)
     { shutdown (conns[a].cfd, SHUT_WR); out ("ok"); continue; }
     if (!strcmp (op, "cclose") && l.n >= 2 && lp_u64 (l.w[1], &a) && a < MAXC && conns[a].used)
     { drain_clients (); close (conns[a].cfd); conns[a].cfd = -1; conns[a].eof_seen = 1; out ("ok"); continue; }
+    if (tgate_on && (!strcmp (op, "round") || !strcmp (op, "roundw")))
+    { if (!t_any_wanted ()) { out ("skipped"); report (); continue; }
+      one_round (NULL); report (); continue; }
+    if (tgate_on && !strcmp (op, "drain") && l.n >= 2 && lp_u64 (l.w[1], &a))
+    { for (i = 0; i < (int) a; i++) { if (!t_any_wanted ()) break; one_round (NULL); report (); }
+      out (i < (int) a ? "quiescent after=%d" : "drain-exhausted after=%d", i); continue; }
+    if (tgate_on && !strcmp (op, "race") && l.n >= 2 && lp_u64 (l.w[1], &a) && a < MAXC)
+    { race_arm[a] = 1; out ("ok"); continue; }
     if (gate_on && (!strcmp (op, "round") || !strcmp (op, "roundw")))
     { /* the thread really sleeps in poll(): a cycle happens only when that poll() would return */
       if (!gate_wanted ()) { out ("skipped"); report (); continue; }
@@ -959,9 +1148,10 @@ int main (void)
       for (i = 0; i < MAXC; i++)
         if (conns[i].used && conns[i].resume_in >= 0 && conns[i].mc)
         { conns[i].resume_in = -1; out ("resume c=%d", i); MHD_resume_connection (conns[i].mc); any = 1; }
-      if (any && !threaded ()) { one_round (NULL); one_round (NULL); }
+      if (tgate_on) { gate_open (); if (any) usleep (50000); }
+      else if (any && !threaded ()) { one_round (NULL); one_round (NULL); }
       else if (any) usleep (50000);
-      drain_clients (); gate_open (); MHD_stop_daemon (d); d = NULL; gate_on = 0; drain_clients (); out ("stopped");
+      drain_clients (); gate_open (); MHD_stop_daemon (d); d = NULL; gate_on = 0; tgate_on = 0; drain_clients (); out ("stopped");
       for (i = 0; i < MAXRESP; i++) if (freecb_count[i]) out ("free-cb-total rid=%d n=%d", i, freecb_count[i]);
       continue; }
     out ("bad-op");
